@@ -133,6 +133,7 @@ def translate():
     # (`self.analysis.clear();` concerns the language-server analysis only, which the assembler model does not carry)
     # C06 (loop iteration budget): `self.loop_iterations = 0;` is bookkeeping of the `.loop` limit
     if np.replace(" self.analysis.clear();", "").replace(" self.loop_iterations = 0;", "").replace(" self.containers_entered = 0; self.nesting_exhausted = false;", "") != ("self.pass_idx += 1; self.next_macro_scope_id = 0; self.changed.clear(); self.segments.values_mut().for_each(|s| s.reset()); "
+              "self.current_segment = self.segments.keys().next().cloned(); "          # acfe737: every pass starts in the first-defined segment
               "self.test_elements.clear(); self.source_map.clear();"):
         raise ShapeError("next_pass changed: %s" % np)
     ap = norm(between(cg, r"fn register_all_segment_symbols\(&mut self\) -> CoreResult<\(\)> \{", r"\n    \}", "register_all_segment_symbols"))
@@ -166,14 +167,15 @@ def translate():
     if tp != "self.try_current_segment().map(|seg| seg.target_pc())":
         raise ShapeError("try_current_target_pc changed: %s" % tp)
     ws = norm(between(cg, r"fn with_scope<F: FnOnce\(&mut Self\) -> CoreResult<\(\)>>\(", r"\n    \}", "with_scope"))
-    need(r"let old_scope_nx = self\.current_scope_nx; self\.current_scope\.push\(scope\); "
+    # 5239ce9: macro invocations are numbered per scope (counter saved, reset to 0, restored) -> enter_scope / leave_scope in Asm.v
+    need(r"let old_scope_nx = self\.current_scope_nx; let old_macro_scope_id = std::mem::replace\(&mut self\.next_macro_scope_id, 0\); self\.current_scope\.push\(scope\); "
          r"self\.current_scope_nx = self \.symbols \.ensure_index\(self\.symbols\.root, &self\.current_scope\); "
          r"if let Some\(span\) = add_symbols_for_block\.map\(\|b\| b\.lparen\.span\) \{ self\.try_current_target_pc\(\)\.map\(\|pc\| \{ "
          r"self\.add_symbol\(\"-\", self\.symbol\(span, pc\.as_i64\(\), SymbolType::Constant\)\) \}\); \} "
          r"let result = f\(self\); "
          r"if let Some\(span\) = add_symbols_for_block\.map\(\|b\| b\.rparen\.span\) \{ self\.try_current_target_pc\(\)\.map\(\|pc\| \{ "
          r"self\.add_symbol\(\"\+\", self\.symbol\(span, pc\.as_i64\(\), SymbolType::Constant\)\) \}\); \} "
-         r"self\.current_scope_nx = old_scope_nx; self\.current_scope\.pop\(\); result$", ws, "with_scope")
+         r"self\.current_scope_nx = old_scope_nx; self\.current_scope\.pop\(\); self\.next_macro_scope_id = old_macro_scope_id; result$", ws, "with_scope")
 
     # ---- loop, macro, align, data, pc
     lp = norm(between(cg, r"Token::Loop \{", r"Token::MacroDefinition \{", "loop arm"))
